@@ -28,13 +28,26 @@ impl Fee {
     }
 }
 
+/// the deployment's configured fee parameters (what the owner put into the instantiate message): the oracle decides
+/// "charged or not" and "how much at most" from these and from backing over claims, never from what the hub reports
+#[derive(Clone, Debug)]
+pub struct FeeCfg {
+    pub peg: cosmwasm_std::Decimal,
+    pub thr: cosmwasm_std::Decimal,
+}
+fn feecfg(f: &str, t: &str) -> FeeCfg {
+    use std::str::FromStr;
+    let one = cosmwasm_std::Decimal::one();
+    FeeCfg { peg: cosmwasm_std::Decimal::from_str(f).unwrap(), thr: cosmwasm_std::Decimal::from_str(t).unwrap().min(one) }
+}
+
 impl Scenario for Fee {
-    type G = ();
+    type G = FeeCfg;
     type O = HubObs;
     fn name(&self) -> String {
         format!("fee/{}", self.label)
     }
-    fn seeds(&self) -> Vec<(String, Chain, ())> {
+    fn seeds(&self) -> Vec<(String, Chain, FeeCfg)> {
         let mut out = vec![];
         for f in &self.fees {
             for t in &self.thresholds {
@@ -51,7 +64,7 @@ impl Scenario for Fee {
                     prefix.push(slash_bonded("val1", *n, *d));
                     prefix.push(slash_bonded("val2", *n, *d));
                     run_prefix(&mut c, &prefix);
-                    out.push((format!("fee={} thr={} slash={}/{}{}", f, t, n, d, if self.rewarded { " rewarded" } else { "" }), c, ()));
+                    out.push((format!("fee={} thr={} slash={}/{}{}", f, t, n, d, if self.rewarded { " rewarded" } else { "" }), c, feecfg(f, t)));
                 }
             }
         }
@@ -61,16 +74,21 @@ impl Scenario for Fee {
                 let cfg = Cfg { peg_fee: f, threshold: t, ..Cfg::default() };
                 let mut c = deploy(&cfg);
                 run_prefix(&mut c, &[bond(ALICE, 1000), bond(BOB, 1000), slash_bonded("val1", *n, *d), slash_bonded("val2", *n, *d), bond_st(BOB, 500)]);
-                out.push((format!("exact: fee={} thr={} slash={}/{}", f, t, n, d), c, ()));
+                out.push((format!("exact: fee={} thr={} slash={}/{}", f, t, n, d), c, feecfg(f, t)));
             }
         }
         out
     }
-    fn feed_ghost(&self, _g: &(), _h: &mut Sha256) {}
+    fn feed_ghost(&self, g: &FeeCfg, h: &mut Sha256) {
+        use sha2::Digest;
+        h.update(g.peg.to_string().as_bytes());
+        h.update(b"|");
+        h.update(g.thr.to_string().as_bytes());
+    }
     fn observe(&self, c: &Chain) -> HubObs {
         HubObs::new(c)
     }
-    fn actions(&self, _c: &Chain, o: &HubObs, _g: &()) -> Vec<Action> {
+    fn actions(&self, _c: &Chain, o: &HubObs, _g: &FeeCfg) -> Vec<Action> {
         let mut v = vec![];
         let k = self.scale;
         for u in &self.users {
@@ -99,20 +117,22 @@ impl Scenario for Fee {
         }
         v
     }
-    fn step(&self, _pre: &Chain, po: &HubObs, _g: &(), a: &Action, out: &Outcome, _post: &Chain, qo: &HubObs, cx: &mut Cx) {
-        c05_step(po, a, out, qo, cx);
+    fn step(&self, _pre: &Chain, po: &HubObs, g: &FeeCfg, a: &Action, out: &Outcome, _post: &Chain, qo: &HubObs, cx: &mut Cx) -> FeeCfg {
+        c05_step(po, g, a, out, qo, cx);
+        g.clone()
     }
-    fn state(&self, _c: &Chain, _o: &HubObs, _g: &(), _cx: &mut Cx) {}
+    fn state(&self, _c: &Chain, _o: &HubObs, _g: &FeeCfg, _cx: &mut Cx) {}
 }
 
-pub fn c05_step(po: &HubObs, a: &Action, out: &Outcome, qo: &HubObs, cx: &mut Cx) {
+pub fn c05_step(po: &HubObs, g: &FeeCfg, a: &Action, out: &Outcome, qo: &HubObs, cx: &mut Cx) {
     if !out.ok() || out.is_env {
         return;
     }
-    let brate = po.state.bsei_exchange_rate;
-    let srate = po.state.stsei_exchange_rate;
-    let peg = po.params.peg_recovery_fee;
-    let thr = po.params.er_threshold;
+    // the rates are backing over claims of the pre-state (C03's definition), the fee parameters are the configured ones
+    let brate = crate::hubcore::expected_rate(po.state.total_bond_bsei_amount.u128(), po.b_claims());
+    let srate = crate::hubcore::expected_rate(po.state.total_bond_stsei_amount.u128(), po.st_claims());
+    let peg = g.peg;
+    let thr = g.thr;
     let charged = brate < thr;
     if brate == thr && thr < cosmwasm_std::Decimal::one() {
         cx.count("c05_rate_exactly_on_threshold");
